@@ -79,7 +79,7 @@ HOOK_KINDS = ['cbstop', 'cbclose', 'cb255stop']
 QUICK_PASSES = [(BASE_KINDS + HOOK_KINDS, 5)]
 THOROUGH_PASSES = [
     (BASE_KINDS + ['r255n'], 7),
-    (BASE_KINDS + ['r255n'] + HOOK_KINDS, 6),
+    (BASE_KINDS + HOOK_KINDS, 6),
 ]
 
 _CUR = None          # the harness whose pool is executing (one at a time)
